@@ -1054,6 +1054,8 @@ func oracle(c Case, o *h.Obs) *h.Fail {
 	modes := []struct{ name, src string }{
 		{"literal", script("", la, lb, numeric)},
 		{"variable", script("a = "+la+"\nb = "+lb+"\n", "a", "b", numeric)},
+		// operands read from list elements reach equal() as interface-kinded values
+		{"element", script("ea = ["+la+"]\neb = ["+lb+"]\n", "ea[0]", "eb[0]", numeric)},
 	}
 	var first []bool
 	for mi, m := range modes {
@@ -1142,7 +1144,7 @@ func oracle(c Case, o *h.Obs) *h.Fail {
 					break // <=,>= belong to C05; only == and its three uses are compared across forms
 				}
 				if r[i] != first[i] {
-					return h.Failf("C06|law:operand-form"+sigTail, "a = %s\nb = %s\n`%s` is %v with literal operands and %v with variables", la, lb, formNames[i], first[i], r[i])
+					return h.Failf("C06|law:operand-form"+sigTail, "a = %s\nb = %s\n`%s` is %v with literal operands and %v with operands as %s", la, lb, formNames[i], first[i], r[i], m.name)
 				}
 			}
 		}
